@@ -185,6 +185,40 @@ CHECKS = {
             "reserved / non-reserved additional headers.",
             SIM_NOTE + " '+200' / '0200' style texts are unspecified.",
             "exhaustive enumeration of inputs on the real constructors and of request / response variants against the real driver"),
+    "C10": ("simx", "exploration", "DESIGN.md §6-C10",
+            "Complete grid of direct calls of the public ServerHashVerification::verify_server_cert with an injected clock: key algorithm "
+            "(P-256, P-384, Ed25519; rcgen) x validity (1 s, 13 d, 14 d - 1 s, 14 d, 14 d + 1 s, 15 d, 365 d) x now (not_before -1/0/+1 s, "
+            "middle, not_after -1/0/+1 s; thorough +-60 s second by second and validity 14 d +-60 s) x hash set (empty, own, other, 31 others "
+            "+ own, 32 others); truncated / bit-flipped DER; and end to end on the simulated network 6 trust policies (hashes own / other / "
+            "empty, native roots, custom root store with the issuing CA, no validation) x 6 server identities (P-256 14 d, expired, not yet "
+            "valid, 15 d, P-384, CA-signed leaf). Expected decision is computed from the generation parameters; a refused server must never "
+            "yield a session request at the server application.",
+            "rustls / webpki (signature checks, chain building for the custom-root policy) and rcgen are trusted; end-to-end rows read the "
+            "wall clock with >= 1 h margins.",
+            "exhaustive enumeration of a finite certificate / clock / policy grid on the real verifier and the real stack"),
+    "C19": ("simx", "exploration", "DESIGN.md §6-C19",
+            "Complete grids: 11 SAN lists x 8 validity settings with every generated certificate re-parsed by x509-parser (v3, id-ecPublicKey "
+            "+ prime256v1, exactly the requested SANs typed DNS / IP, validity as requested, default <= 14 d, valid now, accepted by hash "
+            "pinning with its own hash, usable in a TLS server config; non-ASCII names refused); PEM store->load for certificate, private "
+            "key, identity and chains of length 0,1,2,3,5 (byte-identical DER, labels); digests with every uniform byte value and every "
+            "position x 11 boundary values through both textual formats, FromStr and Display; every truncation and single-character "
+            "substitution of valid digest texts, wrong element counts and out-of-range elements (must be refused, never panic); truncations / "
+            "substitutions of PEM files and truncations / bit flips of DER (never panic).",
+            "Reads the wall clock and the file system (temporary files under /verif/target); x509-parser is the independent certificate parser.",
+            "exhaustive enumeration of finite input grids on the real constructors, loaders and parsers"),
+    "C20": ("simx", "exploration", "DESIGN.md §6-C20",
+            "Complete configuration matrices: binding on real OS sockets (server / client x 13 ways: six IpBindConfig presets, explicit "
+            "v4 / v6, with_bind_address_v6 x 3 dual-stack settings, with_bind_default, pre-bound socket; observed both on the socket the "
+            "endpoint would bind (hook H4) and through Endpoint::server / client + local_addr): family, address, port, IPV6_V6ONLY; TLS "
+            "defaults by in-memory rustls handshakes against peers restricted to TLS 1.2 / 1.3 (only 1.3 + ALPN h3 may succeed); ALPN "
+            "negotiation against raw QUIC peers offering h3 / hq-29 / both / nothing in both roles; all five builder paths handshaking on the "
+            "simulated network; idle timeout on each side in {default, 1 s, 5 s, (10 min), disabled} x keep-alive off / T/3 x partition / idle "
+            "healthy network measured in virtual time (TimedOut at min(T) / survives >= 6 T / never dies within 1 h); representability of "
+            "max_idle_timeout (0 .. Duration::MAX); client migration with allow_migration on / off; reload_config (new connections see the "
+            "new identity and transport settings, the established connection keeps working).",
+            SIM_NOTE + " Bind rows need IPv6 loopback (reported as uncovered otherwise); Linux forces IPV6_V6ONLY on non-wildcard binds, so the "
+            "option is judged on wildcard binds only.",
+            "exhaustive enumeration of finite configuration matrices on real sockets and on the real stack under deterministic simulation"),
 }
 
 NOT_YET = "check not built yet in this round (work in progress; see DESIGN.md §11 build order)"
